@@ -99,6 +99,12 @@ func drawC02(t *rapid.T, x *X) *Case {
 	}
 	// a few error-returning blocks: a code predicate's boolean alone decides the match
 	c.Plan = drawPlan(t, x.G.Spec, 2, false, false)
+	// pos is a function of the input and the offset for every byte string: an eighth of the
+	// inputs carry invalid UTF-8 (a byte that is not a rune still is one column)
+	if gspec.U(t, 8, "invalidutf8") == 0 {
+		c.Input = gspec.InvalidUTF8Edit(t, c.Input)
+		c.Opts.AllowInvalid = gspec.U(t, 4, "allowinvalid") != 0
+	}
 	return c
 }
 
